@@ -912,6 +912,9 @@ class SimOS:
     def getcwd(self):
         return self._sim.fs.cwd
 
+    def getpid(self):
+        return getattr(self._sim, 'pid', 4242)      # (the harness "forks" by changing it)
+
     def utime(self, *a, **k):
         self._sim.event('utime')
 
